@@ -331,6 +331,15 @@ def run_check(prop: Prop, tier: str, seed: int, replay: Optional[str] = None) ->
             bad_axioms = {n: a for n, a in bad_axioms.items() if a}
             mods = module_closure(prop.lean_targets)
             forbidden = grep_forbidden([module_file(m) for m in mods])
+        # thorough tier: independent kernel re-check of the compiled .olean files
+        leancheck = "not run (quick tier)"
+        if tier == "thorough" and build_ok and prop.lean_targets:
+            try:
+                pc = subprocess.run(["lake", "env", "leanchecker"] + prop.lean_targets, cwd=LEAN, capture_output=True,
+                                    text=True, timeout=1500)
+                leancheck = "ok" if pc.returncode == 0 else ("FAILED: " + (pc.stdout + pc.stderr)[-400:])
+            except subprocess.TimeoutExpired:
+                leancheck = "timeout (no verdict)"
     proof_ok = build_ok and not gen_failed and not bad_axioms and not forbidden and bool(obligations or not prop.lean_targets)
     broken: List[str] = []
     if gen_failed:
@@ -343,6 +352,8 @@ def run_check(prop: Prop, tier: str, seed: int, replay: Optional[str] = None) ->
         broken.append("forbidden tokens: " + "; ".join(forbidden[:5]))
     if build_ok and prop.lean_targets and not obligations:
         broken.append("audit found no theorems: " + audit_err[:300])
+    if leancheck.startswith("FAILED"):
+        broken.append("leanchecker: " + leancheck)
 
     # 3+4 correspondence and oracle ----------------------------------------------------------
     cases = corpus_cases(pid)
@@ -454,6 +465,7 @@ def run_check(prop: Prop, tier: str, seed: int, replay: Optional[str] = None) ->
             "distribution": res["dist"],
             "extra_checks": [{k: e[k] for k in ("name", "ok", "detail") if k in e} for e in extra][:40],
             "known_findings_reproduced": known_hits,
+            "leanchecker": leancheck,
             "proof_ok": proof_ok, "broken": [b[:300] for b in broken],
             "gen_status": status,
             "exhaustive": False,
